@@ -109,6 +109,9 @@ fn arith(e: &Expr) -> R {
             match (f.as_str(), args.len()) {
                 ("Layout::new", 2) | ("Self::new", 2) => format!("(Layout.new {} {})", args[0], args[1]),
                 ("Layout::of::<u8>", 0) => "(Layout.new 1 1)".to_string(),
+                ("Layout::of::<u16>", 0) => "(Layout.new 2 2)".to_string(),
+                ("Layout::of::<u32>", 0) => "(Layout.new 4 4)".to_string(),
+                ("Layout::of::<u64>", 0) => "(Layout.new 8 8)".to_string(),
                 ("Layout::of::<char>", 0) => "h.char".to_string(),
                 ("Layout::of::<crate::RotoString>", 0) => "h.string".to_string(),
                 ("Layout::of::<std::net::IpAddr>", 0) => "h.ipaddr".to_string(),
@@ -472,7 +475,7 @@ fn boundary(repo: &Path) -> R {
             "Ty::Primitive(primitive)=>primitive.layout(),",
             "Ty::Runtime(type_id)=>{rt.get_runtime_type(*type_id).unwrap().layout()}",
             "Ty::Record(fields)=>{let mut builder=LayoutBuilder::new();for&(_,t)in fields{builder.add(&self.layout_of(t,rt)?);}builder.finish()}",
-            "Ty::Enum(variants)=>{let mut layout=None;for(_,fields)in variants{let mut builder=LayoutBuilder::new();builder.add(&Layout::of::<u8>());",
+            "Ty::Enum(variants)=>{let mut layout=None;for(_,fields)in variants{let mut builder=LayoutBuilder::new();builder.add(&Layout::of::<",
             "let builder=fields.iter().try_fold(builder,|mut b,t|{let layout=self.layout_of(*t,rt)?;b.add(&layout);Some(b)});",
             "let Some(builder)=builder else{continue;};",
             "let variant_layout=builder.finish();",
@@ -482,7 +485,17 @@ fn boundary(repo: &Path) -> R {
         ],
         "Pool::layout_of",
     )?;
-    o.push_str("/-- `Pool::layout_of` has the recognised shape (constants below; recursion modelled in `Model/Boundary.lean`) -/\ndef unitLayout : Layout := (Layout.new 0 1)\ndef enumTagLayout : Layout := (Layout.new 1 1)\ndef listLayout (h : HostLayouts) : Layout := h.list\n");
+    // the tag layout: the argument of the first `builder.add(&…)` of the enum arm / of `location`
+    let tag_of = |text: &str, before: &str, what: &str| -> R {
+        let key = strip(before);
+        let p = pos(text, &key, what)? + key.len();
+        let rest = &text[p..];
+        let e = rest.find(");").ok_or_else(|| format!("{what}: tag layout expression"))?;
+        let ex: Expr = syn::parse_str(&rest[..e]).map_err(|e| format!("{what}: tag layout: {e}"))?;
+        arith(&ex)
+    };
+    let enum_tag = tag_of(&b, "for(_,fields)in variants{let mut builder=LayoutBuilder::new();builder.add(&", "Pool::layout_of")?;
+    o.push_str(&format!("/-- `Pool::layout_of` has the recognised shape (constants below; recursion modelled in `Model/Boundary.lean`) -/\ndef unitLayout : Layout := (Layout.new 0 1)\ndef enumTagLayout : Layout := {enum_tag}\ndef listLayout (h : HostLayouts) : Layout := h.list\n"));
     let f = find::func(&ty, "is_reference_type", Some("Pool"))?;
     let b = toks(&f.block);
     let zs = strip("if self.layout_of(ty, rt)?.size() == 0 { return Some(false); }");
@@ -625,6 +638,29 @@ fn boundary(repo: &Path) -> R {
     if !has_wild {
         o.push_str("  | _ => none\n");
     }
+    // Lowerer::location: the `VariantField` loop
+    let floc = find::func(&lower, "location", Some("Lowerer"))?;
+    let bl = toks(&floc.block);
+    in_order(
+        &bl,
+        &[
+            "mir::Projection::VariantField(variant_name,n)=>{let Ty::Enum(variants)=self.ctx.type_info.ty_pool.get(ty)else{ice!()};let mut builder=LayoutBuilder::new();builder.add(&Layout::of::<",
+            "let variant=variants.iter().find(|v|v.0==variant_name).unwrap();",
+            "let mut last_ty=None;let mut new_offset=0;for&field_ty in variant.1.iter().take(n+1){new_offset=builder.add(&self.layout_of(field_ty)?);last_ty=Some(field_ty);}",
+            "ty=last_ty.unwrap();offset+=new_offset;",
+            "Some(Location::Pointer{base,offset})",
+        ],
+        "Lowerer::location",
+    )?;
+    let loc_tag = {
+        let key = strip("else{ice!()};let mut builder=LayoutBuilder::new();builder.add(&");
+        let p = pos(&bl, &key, "Lowerer::location")? + key.len();
+        let rest = &bl[p..];
+        let e = rest.find(");").ok_or("Lowerer::location: tag layout expression")?;
+        let ex: Expr = syn::parse_str(&rest[..e]).map_err(|e| format!("Lowerer::location: tag layout: {e}"))?;
+        arith(&ex)?
+    };
+    o.push_str(&format!("/-- the tag `Lowerer::location` skips before the fields of a variant (`VariantField` loop) -/\ndef locationTagLayout : Layout := {loc_tag}\n"));
     // ir_signature: parameter filter and the return rule
     let host = toks(&lower);
     in_order(
